@@ -330,6 +330,56 @@ func (h *History) absorb(st *Step) {
 	if !st.Res.OK {
 		return
 	}
+	// scale classes (measured, so that "more than 100 of something" is known to be reached)
+	if st.Op.Kind == OpBlock {
+		live := 0
+		for _, a := range st.Pre.Auctions {
+			if a.Status == types.AuctionStatusStandBy || a.Status == types.AuctionStatusStarted || a.Status == types.AuctionStatusVesting {
+				live++
+			}
+		}
+		if live > 100 {
+			h.Label("scale:block-with->100-live-auctions")
+		}
+		for _, tr := range st.Trans {
+			if !tr.Settled {
+				continue
+			}
+			bids := st.Pre.BidsOf(tr.ID)
+			bidders := map[string]int{}
+			for _, b := range bids {
+				bidders[b.Bidder]++
+			}
+			most := 0
+			for _, n := range bidders {
+				if n > most {
+					most = n
+				}
+			}
+			switch {
+			case len(bids) > 100:
+				h.Label("scale:settlement-with->100-bids")
+			case len(bids) > 12:
+				h.Label("scale:settlement-with-13..100-bids")
+			}
+			if most > 100 {
+				h.Label("scale:settlement-with->100-bids-of-one-bidder")
+			}
+			if len(bidders) > 16 {
+				h.Label("scale:settlement-with->16-bidders")
+			} else if len(bidders) > 8 {
+				h.Label("scale:settlement-with-9..16-bidders")
+			}
+		}
+	}
+	if st.Op.Kind == OpPlaceBid {
+		if n := len(post.BidsOf(st.Op.Auction)); n == 101 && len(st.Pre.BidsOf(st.Op.Auction)) == 100 {
+			h.Label("scale:auction-reaches->100-stored-bids")
+		}
+	}
+	if len(post.Allowed) > 100 && len(st.Pre.Allowed) <= 100 {
+		h.Label("scale:>100-allow-list-entries")
+	}
 	// new auctions / bids
 	for _, a := range post.Auctions {
 		if _, ok := h.Terms[a.ID]; !ok {
